@@ -1,13 +1,13 @@
 from vlib.core import Check, Family
 from vlib.c03 import build_cabi
-from checks.models import ALL_MODELS
+from checks.models import ALL_MODELS, TOL_BY_MODEL, EXTRA_ARGS
 
 CHECK = Check(
     "C03",
     props_modules=["OW.Props.C03"],
     pre_steps=[build_cabi],
     families=[Family("NDPAIR"), Family("ND", args=["prop=C03"], label="ND-c"),
-              Family("CABI", rtol=1e-9, atol_scale=1e-12, args=["models=" + ",".join(ALL_MODELS), "n=6"])],
+              Family("CABI", rtol=1e-9, atol_scale=1e-12, tol_by_model=TOL_BY_MODEL, args=["models=" + ",".join(ALL_MODELS), "n=6"] + EXTRA_ARGS)],
     level="proof",
     trusted=[
         "hand-written Lean model of the C back-end (data/cdata/arrays_c.go) inside OW/Nd/Array.lean (isC = true paths: unchecked pointer "
